@@ -968,7 +968,7 @@ class Body:
         return (self.origins(t["op"]), t["vals"], t["targets"], t["otherwise"])
 
     # ---- conditional constant propagation ---------------------------------------------
-    def explore(self, assume_locals=None, assume_discr=None, assume_calls=None, start=0, avoid=(), max_states=60000, assume_fields=None):
+    def explore(self, assume_locals=None, assume_discr=None, assume_calls=None, start=0, avoid=(), max_states=60000, assume_fields=None, watch=None):
         """Path-sensitive conditional constant propagation under assumptions (a classic dataflow analysis, made
         path-sensitive by keeping one abstract environment per path instead of joining): returns (blocks reachable,
         edges taken). `assume_locals` {local: bool|int} fixes parameters; `assume_discr` {regex on the enum path:
@@ -1094,6 +1094,29 @@ class Body:
 
         seen = set()
         reach, edges = set(), set()
+        self.watched = {}
+        if watch:
+            for wb, k_ in watch.items():
+                pl = op_place(self.blocks[wb]["t"]["args"][k_]) if k_ < len(self.blocks[wb]["t"].get("args", [])) else None
+                if pl is not None:
+                    work_l.append(pl["l"])
+            while work_l:
+                l = work_l.pop()
+                if l in relevant:
+                    continue
+                relevant.add(l)
+                for d in dd.get(l, []):
+                    if d[0] == "stmt" and d[3]["k"] == "assign":
+                        rv = d[3]["rv"]
+                        for o in list(rv_operands(rv)) + list(rv.get("fields", []) if rv["k"] == "agg" else []):
+                            pl = op_place(o) if isinstance(o, dict) else None
+                            if pl is not None:
+                                work_l.append(pl["l"])
+                    elif d[0] == "call":
+                        for o in d[2]["args"]:
+                            pl = op_place(o)
+                            if pl is not None:
+                                work_l.append(pl["l"])
         relevant |= set(assume_locals)
         work = [(start, tuple(sorted((l, v) for l, v in assume_locals.items() if l not in escaped)))]
         while work:
@@ -1133,6 +1156,9 @@ class Body:
             elif k == "call":
                 d = t["dest"]
                 env0 = dict(env)
+                if watch and bb in watch and watch[bb] < len(t["args"]):
+                    # the values an argument of this call takes on the explored paths (None = not a known constant)
+                    self.watched.setdefault(bb, set()).add(val(t["args"][watch[bb]], env0))
                 if not d.get("p"):
                     env.pop(d["l"], None)
                     for pat, v in assume_calls.items():
